@@ -168,10 +168,10 @@ theorem rot_complete (fs : FS) (nrm : Nat) : ∀ (f n m k : Nat),
 
 /-! ### the writers, uninterrupted -/
 
-theorem run_writes (g : Nat) : ∀ (c : Nat) (fs : FS) (k : Nat), (fs 0).isDir = true → c + 1 ≤ k →
-    run (List.replicate c (.write g false) ++ [.write g true]) k fs =
-      (fs.set 0 (.good .dir g), true) := by
-  intro c
+theorem run_writes (g : Nat) : ∀ (body : List (Option TmpKind)) (fs : FS) (k : Nat),
+    (fs 0).isDir = true → body.length + 1 ≤ k →
+    run (body.map (dirOp g) ++ [.write g true]) k fs = (fs.set 0 (.good .dir g), true) := by
+  intro body
   have hstep : ∀ (fs : FS) (l : Bool), (fs 0).isDir = true →
       step (.write g l) fs = some (fs.set 0 (if l then .good .dir g else .part .dir g)) := by
     intro fs l hd
@@ -184,17 +184,23 @@ theorem run_writes (g : Nat) : ∀ (c : Nat) (fs : FS) (k : Nat), (fs 0).isDir =
     | part c g' => cases c with
       | dir => rfl
       | zip => rw [hfi] at hd; cases hd
-  induction c with
-  | zero =>
+  induction body with
+  | nil =>
     intro fs k hd hk
-    obtain ⟨k', rfl⟩ : ∃ k', k = k' + 1 := ⟨k - 1, by omega⟩
-    simp only [List.replicate, List.nil_append, run_succ_cons, hstep fs true hd, run_nil]
+    obtain ⟨k', rfl⟩ : ∃ k', k = k' + 1 := ⟨k - 1, by simp only [List.length_nil] at hk; omega⟩
+    simp only [List.map_nil, List.nil_append, run_succ_cons, hstep fs true hd, run_nil]
     rfl
-  | succ c ih =>
+  | cons o body ih =>
     intro fs k hd hk
+    simp only [List.length_cons] at hk
     obtain ⟨k', rfl⟩ : ∃ k', k = k' + 1 := ⟨k - 1, by omega⟩
-    simp only [List.replicate, List.cons_append, run_succ_cons, hstep fs false hd]
-    rw [ih _ k' (by rw [set_same]; rfl) (by omega), set_set]
+    cases o with
+    | none =>
+      simp only [List.map_cons, List.cons_append, dirOp, run_succ_cons, hstep fs false hd]
+      rw [ih _ k' (by rw [set_same]; rfl) (by omega), set_set]
+    | some t =>
+      simp only [List.map_cons, List.cons_append, dirOp, run_succ_cons, step]
+      exact ih fs k' hd (by omega)
 
 theorem run_tmps : ∀ (a : List Prim), (∀ p ∈ a, ∃ t, p = .tmp t) →
     ∀ (rest : List Prim) (fs : FS) (k : Nat), a.length ≤ k →
@@ -219,14 +225,14 @@ theorem writer_complete (sv : Save) (fs : FS) (k : Nat) (h0 : fs 0 = .absent)
   cases hkind : sv.kind with
   | dir =>
     rw [hkind] at hk
-    simp only [dirWriter, List.length_cons, List.length_append, List.length_replicate,
+    simp only [dirWriter, List.length_cons, List.length_append, List.length_map,
       List.length_nil] at hk ⊢
     obtain ⟨k', rfl⟩ : ∃ k', k = k' + 1 := ⟨k - 1, by omega⟩
     have hstep : step (.mkroot sv.g) fs = some (fs.set 0 (.part .dir sv.g)) := by
       simp only [step, h0]
     rw [run_succ_cons, hstep]
     simp only []
-    rw [run_writes sv.g sv.n1 _ k' (by rw [set_same]; rfl) (by omega), set_set]
+    rw [run_writes sv.g sv.body _ k' (by rw [set_same]; rfl) (by omega), set_set]
   | zip =>
     rw [hkind] at hk
     simp only [zipWriter, List.length_append, List.length_replicate, List.length_cons,
@@ -240,8 +246,8 @@ theorem writer_complete (sv : Save) (fs : FS) (k : Nat) (h0 : fs 0 = .absent)
       simp only [step, h0]
     rw [hstep]
     simp only []
-    have := run_tmps (List.replicate sv.n2 (.tmp .plain))
-      (by intro p hp; exact ⟨.plain, (List.mem_replicate.mp hp).2⟩) []
+    have := run_tmps (List.replicate sv.n2 (.tmp .guarded))
+      (by intro p hp; exact ⟨.guarded, (List.mem_replicate.mp hp).2⟩) []
       (fs.set 0 (.good .zip sv.g)) k' (by simp; omega)
     simp only [List.append_nil, run_nil] at this
     exact this
@@ -264,7 +270,8 @@ theorem run_plan_complete (maxB : Nat) (sv : Save) (fs : FS) (m k : Nat)
   simp only [if_true]
   rw [hw]
 
-theorem faultKind_ge (pl : List Prim) (k : Nat) (h : pl.length ≤ k) : faultKind pl k = .raises := by
+theorem faultKind_ge (pol : Policy) (pl : List Prim) (k : Nat) (h : pl.length ≤ k) :
+    faultKind pol pl k = .raises := by
   unfold faultKind
   rw [List.getElem?_eq_none h]
 
@@ -272,7 +279,7 @@ theorem save_at_length (maxB : Nat) (sv : Save) (fs : FS) :
     save maxB sv (plan maxB sv fs).length fs =
       run (plan maxB sv fs) (plan maxB sv fs).length fs := by
   unfold save
-  rw [faultKind_ge _ _ (Nat.le_refl _)]
+  rw [faultKind_ge _ _ _ (Nat.le_refl _)]
 
 /-! ### uninterrupted saves keep the previous generations in order -/
 
@@ -372,7 +379,7 @@ theorem exists_first_gap (fs : FS) : ∀ (f n : Nat), ∃ m, n ≤ m ∧ m ≤ n
 at the path, every generation up to the first free slot has moved up by one, nothing else
 changed -/
 theorem save_done (maxB : Nat) (sv : Save) (k : Nat) (fs : FS)
-    (hnt : faultKind (plan maxB sv fs) k ≠ .truncates)
+    (hnt : faultKind sv.pol (plan maxB sv fs) k ≠ .truncates)
     (hdone : (save maxB sv k fs).2 = true) :
     ∃ m, m ≤ maxB ∧ (∀ j, j < m → fs j ≠ .absent) ∧ (m < maxB → fs m = .absent) ∧
       (save maxB sv k fs).1 = (shift fs 0 m).set 0 (.good sv.kind sv.g) := by
